@@ -70,6 +70,13 @@ def begin(tier: str) -> None:
     oca = pki.make_ca(d, 'origin-ca', rsa=False)
     other = pki.make_ca(d, 'unrelated-ca', rsa=False)
     _P.update({'dir': d, 'certs': certs, 'ica': ica, 'sign_key': sign_key, 'oca': oca, 'other': other, 'leafs': {}})
+    # the host's own trust store (what OpenSSL's default paths resolve to) trusts the *unrelated* CA: an operator who narrows
+    # trust with --ca-file still refuses origins that only the platform would accept.  OpenSSL reads these variables whenever
+    # default paths are loaded, so nothing else in this process changes (harness contexts load their CA files explicitly).
+    empty = os.path.join(d, 'no-cert-dir')
+    os.makedirs(empty, exist_ok=True)
+    os.environ['SSL_CERT_FILE'] = other[1]
+    os.environ['SSL_CERT_DIR'] = empty
 
 
 def end() -> None:
